@@ -124,11 +124,15 @@ def _run_symbolic_picture(job):
         old = rz.torch
         rz.torch = _torch_stub()
         try:
-            res = rz.process_maze_rasterized_input_target(_FakeMaze(px), remove_isolated_cells=ric, extend_pixels=ext, endpoints_as_open=eao)
+            fm = _FakeMaze(px)
+            res = rz.process_maze_rasterized_input_target(fm, remove_isolated_cells=ric, extend_pixels=ext, endpoints_as_open=eao)
+            # no hidden state: the same maze processed with the opposite options in between, then again with these options
+            rz.process_maze_rasterized_input_target(fm, remove_isolated_cells=not ric, extend_pixels=not ext, endpoints_as_open=not eao)
+            res2 = rz.process_maze_rasterized_input_target(fm, remove_isolated_cells=ric, extend_pixels=ext, endpoints_as_open=eao)
         finally:
             rz.torch = old
         inp, tgt, shape = _oracle_images(pic, H, W, ric, ext, eao)
-        return _cmp_obligations(res, inp, tgt, shape)
+        return _cmp_obligations(res, inp, tgt, shape) + _cmp_obligations(res2, inp, tgt, shape, label="processed again after other options: ")
 
     return run
 
